@@ -402,3 +402,16 @@ package jp
 //@     assert [C14 parens-left] e.left.o != nil && e.left.o.prec > e.o.prec ==> $arg2
 //@   at call Append#5
 //@     assert [C14 parens-right] e.right.o != nil && e.right.o.prec >= e.o.prec ==> $arg2
+
+// The same rule where a compiled script prints an operator with its two operands (Script.String, filters): the operand
+// is a *precBuf (an already printed sub-expression with the precedence of its operator) and appendValue encloses it in
+// parentheses exactly when the precedence passed ($arg3) is lower than the operand's.
+//@ func (*Script).appendOp
+//@   opt wrap = data
+//@   requires OpsInit(0) && o != nil
+//@   modifies everything
+//@   at call appendValue#7
+//@     assert [C14 parens-left] typeis(left, precBuf, ptr) && as(left, precBuf).prec > o.prec ==> $arg3 < as(left, precBuf).prec
+//@   at call appendValue#8
+// (every operator printed infix has precedence 1..4 in the operator table; precedence 0 belongs to the prefix forms)
+//@     assert [C14 parens-right] 0 < o.prec && typeis(right, precBuf, ptr) && as(right, precBuf).prec >= o.prec ==> $arg3 < as(right, precBuf).prec
